@@ -228,7 +228,7 @@ func (g *Gen) primitive() *Node {
 	t := []string{"string", "integer", "number", "boolean"}[g.r.Intn(4)]
 	n := leaf(t)
 	if t == "string" && g.r.Intn(3) == 0 {
-		n.At["format"] = []string{"date", "date-time", "uuid", "email"}[g.r.Intn(4)]
+		n.At["format"] = []string{"date", "date-time", "uuid", "email", "binary", "custom-fmt"}[g.r.Intn(6)]
 	}
 	if t == "integer" && g.r.Intn(3) == 0 {
 		n.At["format"] = []string{"int32", "int64"}[g.r.Intn(2)]
@@ -315,6 +315,13 @@ func (g *Gen) schema(depth int, pick refPicker) *Node {
 		if g.r.Intn(3) == 0 {
 			n.At["type"] = "object"
 		}
+		if g.r.Intn(5) == 0 { // allOf + additionalProperties, no own properties
+			if g.r.Intn(2) == 0 {
+				n.At["additionalProperties"] = "=true"
+			} else {
+				n.Ch["additionalProperties"] = g.primitive()
+			}
+		}
 		return n
 	case 9: // anyOf / oneOf / not
 		n := NewNode()
@@ -327,13 +334,17 @@ func (g *Gen) schema(depth int, pick refPicker) *Node {
 	case 10: // patternProperties
 		n := leaf("object")
 		pp := NewNode()
-		pp.Ch[g.newName()] = g.schema(depth-1, pick)
+		for i, np := 0, 1+g.r.Intn(3); i < np; i++ { // siblings of different shapes
+			pp.Ch[g.newName()] = g.schema(depth-1, pick)
+		}
 		n.Ch["patternProperties"] = pp
 		return n
 	default: // nested definitions
 		n := leaf("object")
 		dd := NewNode()
-		dd.Ch[g.newName()] = g.schema(depth-1, pick)
+		for i, nd := 0, 1+g.r.Intn(3); i < nd; i++ {
+			dd.Ch[g.newName()] = g.schema(depth-1, pick)
+		}
 		n.Ch["definitions"] = dd
 		props := NewNode()
 		props.Ch[g.newName()] = g.schema(depth-1, pick)
